@@ -34,7 +34,7 @@ ASSUMPTIONS = [
     "from_path runs on a real file (tmpfs) because negative seeks only surface as OSError there",
     "quick tier: truncation coverage is exhaustive for the structural windows only (stated in coverage.exhaustive_scope)",
 ]
-BOUNDS = {"quick": {"k": 1, "trunc": "windows+64", "short_alpha_len": 3}, "thorough": {"k": 2, "trunc": "all", "short_alpha_len": 4}}
+BOUNDS = {"quick": {"k": 1, "trunc": "windows+64", "short_alpha_len": 3, "http_tokens": 4}, "thorough": {"k": 2, "trunc": "all", "short_alpha_len": 4, "http_tokens": 5}}
 LINE_BUDGET = 3_000_000
 WATCHDOG_S = 25.0
 
@@ -353,6 +353,8 @@ def plan(tier, seed):
         ch.append({"key": f"short/bytes/{hi:02x}", "kind": "short_bytes", "hi": hi, "cost": 1200})
     ch.append({"key": "short/alpha", "kind": "short_alpha", "cost": 2500})
     ch.append({"key": "ua-eof", "kind": "ua_eof", "cost": 100})
+    for i in range(len(HTTP_TOKENS)):
+        ch.append({"key": f"http/tokens/{i}", "kind": "http_tokens", "first": i, "cost": 3 * len(HTTP_TOKENS) ** (BOUNDS[tier]["http_tokens"] - 1) // 10})
     return ch
 
 
@@ -462,6 +464,24 @@ def chunk_short_alpha(chunk, acc):
         eps = [ep_block, ep_artifact, ep_http] + ([ep_from_bytes, ep_xor_from_file] + PE_EPS[:2] if len(d) <= n else [])
         run_input(acc, eps, d, {"kind": "short", "data": d.hex()}, d)
     acc.sample({"alphabet": [f"{a:02x}" for a in alpha], "max_len": n + 2})
+
+
+HTTP_TOKENS = (b"GET", b"HTTP/1.1", b" ", b"\t", b"\r\n", b"\n", b":", b": ", b"/x", b"200", b"?", b"=", b"%", b"A", b"\x00", b"\xff")
+HTTP_PREFIXES = (b"", b"GET /x HTTP/1.1\r\n", b"HTTP/1.1 200 OK\r\n")
+
+
+def chunk_http_tokens(chunk, acc):
+    """Every string of at most n HTTP-level tokens (whitespace, line ends, separators, a verb, a version, binary bytes),
+    on its own and behind a valid request line / status line (so that the header and body parsing is reached)."""
+    n = BOUNDS[acc.tier]["http_tokens"]
+    first = HTTP_TOKENS[chunk["first"]]
+    for rest in sequences(HTTP_TOKENS, n - 1):
+        tail = first + b"".join(rest)
+        acc.states += 1
+        for pi, pre in enumerate(HTTP_PREFIXES):
+            d = pre + tail
+            run_input(acc, [ep_http], d, {"kind": "short", "data": d.hex(), "entry_only": "ep_http"}, (pi, chunk["first"], rest))
+    acc.sample({"tokens": [t.decode("latin-1") for t in HTTP_TOKENS], "max_tokens": n, "prefixes": [p.decode() for p in HTTP_PREFIXES]})
 
 
 def chunk_ua_eof(chunk, acc):
